@@ -33,6 +33,9 @@ def run(tier):
     rep.add_tlc("MC_C03(corpus)", res)
     _, res5, cases5 = vlib.tlc_chunked(PROP, "corpus5", "MC_C05", nchunks=8)
     rep.add_tlc("MC_C05(corpus)", res5)
+    _, res10, cases10 = vlib.tlc_chunked(PROP, "corpus10", "MC_C10", nchunks=8)      # DTLS headers over grids of epochs / sequence numbers
+    rep.add_tlc("MC_C10(corpus)", res10)
+    cases5 = cases5 + cases10
     for k, c in enumerate(cases + cases5):
         c["id"] = k
     corpus = [{"id": c["id"], "fn": c["fn"], "a": c["a"], "input": c["input"]} for c in cases + cases5]
@@ -106,6 +109,21 @@ def run(tier):
         for m in re.finditer(r"\bunsafe\b[^\n]{0,60}", exp):
             toks += 1
             where.append("expanded(%s):%s" % (" ".join(feat) or "default", m.group(0).strip()[:50]))
+    # the Send + Sync assertions cover the hand-written list AND every `pub struct` / `pub enum` found in the sources now
+    gen_lines = []
+    for f in sorted(glob.glob(os.path.join(vlib.REPO, "src", "*.rs"))):
+        if os.path.basename(f) in ("tls_serialize.rs",):
+            continue
+        srcf = re.sub(r"//[^\n]*", "", open(f).read())
+        for m in re.finditer(r"^\s*pub\s+(?:struct|enum|union)\s+([A-Za-z_][A-Za-z0-9_]*)\s*(<[^>{(;]*>)?", srcf, flags=re.M):
+            name, gen = m.group(1), m.group(2) or ""
+            if gen and not re.fullmatch(r"<\s*'[a-z_]+\s*(,\s*'[a-z_]+\s*)*>", gen):
+                continue      # type parameters: nothing to instantiate mechanically
+            n_lt = gen.count("'")
+            gen_lines.append("    ok::<tls_parser::%s%s>();" % (name, ("<" + ", ".join(["'a"] * n_lt) + ">") if n_lt else ""))
+    with open(os.path.join(vlib.HARNESS, "sendsync", "src", "generated.rs"), "w") as gf:
+        gf.write("// generated by bin/checks/c18.py from the `pub struct` / `pub enum` items of /repo/src at check time\n"
+                 "#[allow(dead_code)]\npub fn all_public_types<'a>() {\n    fn ok<T: Send + Sync>() {}\n" + "\n".join(sorted(set(gen_lines))) + "\n}\n")
     # the assertions are compiled under BOTH feature sets of the library (std and no_std): an auto trait can differ between them
     ss_ok, ss_err = True, ""
     for extra in ([], ["--no-default-features"]):
